@@ -52,9 +52,14 @@ func concObserve(p parsley.Parser, eval bool, in string) J {
 		f := mkFile("f", []byte(in))
 		ctx := parsley.NewContext(parsley.NewFileSet(f), text.NewReader(f))
 		if eval {
+			// one context, two calls (validate, then evaluate), as a caller may do; the call count is read after the first
+			_, perr := parsley.Parse(ctx, p)
+			o["calls"] = ctx.CallCount()
 			v, err := parsley.Evaluate(ctx, p)
 			o["val"] = fmt.Sprintf("%v", v)
 			o["err"] = fmt.Sprintf("%v", err)
+			o["perr"] = fmt.Sprintf("%v", perr)
+			return
 		} else {
 			n, err := parsley.Parse(ctx, p)
 			if n != nil {
@@ -63,8 +68,14 @@ func concObserve(p parsley.Parser, eval bool, in string) J {
 				o["val"] = ""
 			}
 			o["err"] = fmt.Sprintf("%v", err)
+			o["calls"] = ctx.CallCount()
+			// ... and asked again on the same context
+			if n2, err2 := parsley.Parse(ctx, p); n2 != nil {
+				o["val2"], o["err2"] = renderNode(n2), fmt.Sprintf("%v", err2)
+			} else {
+				o["val2"], o["err2"] = "", fmt.Sprintf("%v", err2)
+			}
 		}
-		o["calls"] = ctx.CallCount()
 	}); m != "" {
 		o["panic"] = m
 	}
